@@ -21,7 +21,7 @@ func init() {
 		ID: "C13", Level: "exploration", Primary: "sessions", EvalCount: "sessions_checked", RaceIsViolation: false,
 		Rule: "one session = a standards-conforming StartTLS upgrade (go-ldap's StartTLS, and a raw client that waits for the response before its ClientHello) through a wiretap proxy recording both directions, " +
 			"against a StartTLS handler (registered on the exact-name route, or - every third timing - performed by the default route) with delays in {0,1,5,50ms, and 0.7-3s} before the reply, between the reply and Request.StartTLS, and after it; 1..64 sessions upgrade in parallel, some after an answered bind/search on the still-plain connection whose handler lingers 300ms, some next to (and after) other sessions that take the StartTLS reply and then send garbage, half a ClientHello or nothing - two (every fourth timing: twenty) of them stay like that, open, for as long as the conforming sessions run; some sessions end with an operation gldap does not serve (Compare) sent inside the tunnel; raw-client sessions ask for a streamed answer (one entry, the rest only after the client has seen it); every fourth timing builds the StartTLS reply with the general constructor; every third timing a second server in the process holds upgraded sessions of its own open on connections of the same numbers; after the upgrade a mix of requests " +
-			"(go-ldap bind/search/modify, and pipelined concurrent raw requests over the tunnel) is checked with the C01 comparison; one session keeps using the tunnel after several seconds of think time; part of the sessions stay open and idle until the server is stopped, so that shutdown-time bytes are on the wiretap too. Wiretap oracle: plaintext LDAP frames up to and including the StartTLS request " +
+			"(go-ldap bind/search/modify, and pipelined concurrent raw requests over the tunnel) is checked with the C01 comparison; one session keeps using the tunnel after several seconds of think time; part of the sessions stay open and idle until the server is stopped, so that shutdown-time bytes are on the wiretap too; after the other sessions of a timing, two sessions whose handler hands a renewed certificate (another CA) to Request.StartTLS - their clients trust that CA only - and one more with the earlier certificate. Wiretap oracle: plaintext LDAP frames up to and including the StartTLS request " +
 			"(client->server) / the ExtendedResponse with its message ID (server->client), after which every byte in both directions parses as TLS records (content type 20-23, major version 3, length <= 2^14+2048). " +
 			"distinct_nontrivial = distinct (timing triple, client kind, parallelism) combinations whose upgrade completed",
 		Assume: []string{"TLS protection is judged on the wire by record framing; the harness does not attempt to decrypt"},
